@@ -64,7 +64,7 @@ Fixpoint need (t : ty) : list (string * string) :=
       if existsb is_none_ty ts then
         ("typing", "Optional")
           :: match filter (fun x => negb (is_none_ty x)) ts with [_] => [] | _ => [("typing", "Union")] end
-          ++ flat_map need (filter (fun x => negb (is_none_ty x)) ts)
+          ++ flat_map (fun x => if is_none_ty x then [] else need x) ts
       else ("typing", "Union") :: flat_map need ts
   end.
 
@@ -95,7 +95,7 @@ Proof.
 Qed.
 
 Lemma go_nn_need ts : Forall covers ts -> forall acc a b,
-  In (a, b) (flat_map need (filter (fun x => negb (is_none_ty x)) ts)) -> imap_has a b (go_nn ts acc).
+  In (a, b) (flat_map (fun x => if is_none_ty x then [] else need x) ts) -> imap_has a b (go_nn ts acc).
 Proof.
   induction 1 as [|x r [Hm Hn] HF IH]; intros acc a b Hin; cbn in *; [destruct Hin|].
   destruct (is_none_ty x); cbn in Hin.
@@ -154,14 +154,14 @@ Proof.
       * apply (go_nn_mono ts H), add_mono, add_mono; assumption.
       * head_or_rest H0; [apply (go_nn_mono ts H), add_mono, add_has|].
         cbn [app] in H0. head_or_rest H0; [apply (go_nn_mono ts H), add_has|].
-        apply (go_nn_need ts H). rewrite E. exact H0.
+        apply (go_nn_need ts H). exact H0.
       * apply (go_nn_mono ts H), add_mono; assumption.
       * head_or_rest H0; [apply (go_nn_mono ts H), add_has|].
-        cbn [app] in H0. apply (go_nn_need ts H). rewrite E. exact H0.
+        cbn [app] in H0. apply (go_nn_need ts H). exact H0.
       * apply (go_nn_mono ts H), add_mono, add_mono; assumption.
       * head_or_rest H0; [apply (go_nn_mono ts H), add_mono, add_has|].
         cbn [app] in H0. head_or_rest H0; [apply (go_nn_mono ts H), add_has|].
-        apply (go_nn_need ts H). rewrite E. exact H0.
+        apply (go_nn_need ts H). exact H0.
     + split; intros.
       * apply (go_all_mono ts H), add_mono; assumption.
       * head_or_rest H0; [apply (go_all_mono ts H), add_has | apply (go_all_need ts H); exact H0].
